@@ -21,6 +21,7 @@ import PomerolModel.Spec.Partition
 import PomerolModel.Spec.SymmSound
 import PomerolModel.Spec.OpTotal
 import PomerolModel.Spec.IndexBij
+import PomerolModel.Spec.SnapProps
 
 set_option linter.unusedSectionVars false
 
@@ -172,5 +173,50 @@ end Regression
 
 /-- The source currently performs the additivity test. -/
 theorem source_tests_additivity : Pomerol.Gen.Core.additivityTest = true := by decide
+
+/-! ### 5. quantum numbers in floating point: identification of values that differ by rounding only
+
+`StatesClassification::compute` evaluates the quantum numbers in floating point and compares bit patterns.  For an
+accepted integral with non-dyadic weights two states that the Hamiltonian connects may get values that agree only up
+to rounding (0.1+0.2 vs 0.3; finding F17).  The code therefore replaces a value by the first already known value of
+the same operation that is `close` to it (`Model/Symm.lean`: `snap`, `snapRow`, `snapAll`; `rows[s]` = raw quantum
+numbers of the Fock state `s`).  The partition theorems of part 1 hold for every quantum-number function, hence also
+for the replaced values; the theorems below say what the replacement does. -/
+
+section Snap
+open Pomerol.Spec.Snap
+variable {Q : Type} {close : Q → Q → Bool} {nops : Nat} {rows : List (List Q)}
+
+/-- The source performs the identification (translator flag). -/
+theorem source_identifies_close_quantum_numbers : Pomerol.Gen.Core.quantumNumbersSnapped = true := by decide
+
+/-- With exact comparison (exact arithmetic, part 2) nothing is replaced. -/
+theorem identification_is_identity_in_exact_arithmetic [DecidableEq Q] (h : WellShaped nops rows) :
+    snapAll (fun a b => decide (a = b)) nops rows = rows := snapAll_exact h
+
+/-- Every value is replaced by a raw value (of the same operation, of an earlier or the same state) that it is close to:
+no number is invented and nothing moves further than the tolerance. -/
+theorem replaced_value_is_a_close_raw_value (hrefl : ∀ v, close v v = true) (h : WellShaped nops rows) (s n : Nat)
+    (v : Q) (hv : entry rows s n = some v) :
+    ∃ v', entry (snapAll close nops rows) s n = some v' ∧ close v v' = true ∧
+      ∃ t, t ≤ s ∧ entry rows t n = some v' := by
+  obtain ⟨v', h1, h2⟩ := snapAll_close hrefl h s n v hv
+  exact ⟨v', h1, h2, snapAll_representative_is_raw h s n v' h1⟩
+
+/-- States with equal raw quantum numbers are never separated. -/
+theorem equal_values_stay_together (hrefl : ∀ v, close v v = true) (h : WellShaped nops rows) (s t n : Nat) (v : Q)
+    (hs : entry rows s n = some v) (ht : entry rows t n = some v) :
+    entry (snapAll close nops rows) s n = entry (snapAll close nops rows) t n := snapAll_stable hrefl h s t n v hs ht
+
+/-- When `close` is an equivalence on the values that occur (rounding errors far below the tolerance, distinct exact
+values far apart) two states get the same replaced quantum numbers exactly if all their raw values are close: the
+blocks are the classes of "equal up to rounding", whatever the order in which the values were met. -/
+theorem identified_iff_close (h : WellShaped nops rows)
+    (he : ∀ n, n < nops → IsEquivOn close (col rows n)) (s t : Nat) (hs : s < rows.length) (ht : t < rows.length) :
+    (snapAll close nops rows)[s]? = (snapAll close nops rows)[t]? ↔
+      ∀ n, n < nops → ∃ v w, entry rows s n = some v ∧ entry rows t n = some w ∧ close v w = true :=
+  snapAll_rows_iff h he s t hs ht
+
+end Snap
 
 end Pomerol.Properties.C07
